@@ -69,4 +69,24 @@ __CPROVER_ensures(device != NULL && g_locked ==> g_synth.m_volumeScale == __CPRO
 
 /* chip register refresh after an LFO change (ASSUMED: writes chip registers only) */
 void commitLFOSetup(void) __CPROVER_requires(1) __CPROVER_assigns(g_lfo_commits) __CPROVER_ensures(g_lfo_commits == __CPROVER_old(g_lfo_commits) + 1);
+
+/* ---- OPNMIDIplay::applySetup, range from the signature to the chip rebuild `synth.reset(...)` (rule R12): every live
+ *      synth setting is the documented function of the stored setup and the loaded bank's own values; the stored setup,
+ *      the hooks and the SysEx device id are not touched ---- */
+typedef struct { int chipType; bool reached; } apply_result;
+extern apply_result g_apply;
+void applySetup_prefix(void)
+__CPROVER_requires(g_play.m_synth == &g_synth && g_synth.m_insBankSetup.volumeModel >= VOLUME_Generic && g_synth.m_insBankSetup.volumeModel <= VOLUME_9X)
+__CPROVER_assigns(g_synth.m_musicMode, g_synth.m_runAtPcmRate, g_synth.m_scaleModulators, g_synth.m_volumeScale, g_synth.m_numChips, g_synth.m_lfoEnable, g_synth.m_lfoFrequency,
+                  g_play.m_setup.tick_skip_samples_delay, g_apply)
+__CPROVER_ensures(g_apply.reached && g_synth.m_musicMode == MODE_MIDI && g_play.m_setup.tick_skip_samples_delay == 0)
+__CPROVER_ensures(g_synth.m_runAtPcmRate == g_play.m_setup.runAtPcmRate && g_synth.m_scaleModulators == (g_play.m_setup.ScaleModulators != 0) && g_synth.m_numChips == g_play.m_setup.numChips)
+__CPROVER_ensures(g_synth.m_lfoEnable == (g_play.m_setup.lfoEnable < 0 ? (g_synth.m_insBankSetup.lfoEnable != 0) : (g_play.m_setup.lfoEnable != 0)))
+__CPROVER_ensures(g_synth.m_lfoFrequency == (g_play.m_setup.lfoFrequency < 0 ? (uint8_t)g_synth.m_insBankSetup.lfoFrequency : (uint8_t)g_play.m_setup.lfoFrequency))
+__CPROVER_ensures(g_apply.chipType == (g_play.m_setup.chipType < 0 ? g_synth.m_insBankSetup.chipType : g_play.m_setup.chipType))
+/* volume model: AUTO = the bank's own; deprecated logarithmic flag = native; explicit models one-to-one */
+__CPROVER_ensures(g_play.m_setup.VolumeModel == OPNMIDI_VolumeModel_AUTO ==> (int)g_synth.m_volumeScale == g_synth.m_insBankSetup.volumeModel)
+__CPROVER_ensures(g_play.m_setup.VolumeModel != OPNMIDI_VolumeModel_AUTO && g_play.m_setup.LogarithmicVolumes != 0 ==> g_synth.m_volumeScale == VOLUME_NATIVE)
+__CPROVER_ensures(g_play.m_setup.LogarithmicVolumes == 0 && g_play.m_setup.VolumeModel >= OPNMIDI_VolumeModel_Generic && g_play.m_setup.VolumeModel <= OPNMIDI_VolumeModel_9X ==>
+                  g_synth.m_volumeScale == SPEC_MODEL_TO_SCALE(g_play.m_setup.VolumeModel));
 #endif
